@@ -32,6 +32,7 @@ inline bool ref_has_empty_token(const std::string& norm) {
 // Runs every decoder on `s` (cut at its first NUL).  Returns "" or a violation message.
 // c14_only: skip the semantic (C09) comparisons and keep the safety/totality ones.
 inline std::string check(const std::string& input, unsigned coin, bool with_alloc_fail, Result* res, bool c14_only = false) {
+    const bool ledger = c14_only;   // "a failed call leaves no seed allocated" is part of C14 (and C15), not of C09
     const lib::Registry& REG = lib::Registry::get(); deps::Kit& k = deps::kit(0);
     std::string s = input.substr(0, input.find('\0'));
     // exactly-sized heap copy: any read past the terminator or write into the input hits a red zone / is detected
@@ -43,8 +44,8 @@ inline std::string check(const std::string& input, unsigned coin, bool with_allo
     for (size_t li = 0; li < REG.size() && err.empty(); li++) {
         polyseed_data* sd = nullptr; int st = (int)polyseed_decode_explicit(buf, (polyseed_coin)coin, REG.langs[li].lang, &sd); r.E[li] = st;
         if (st < 0 || st > 7 || st == model::FORMAT || st == model::MULT_LANG) err = std::string("decode_explicit returned the undocumented status ") + std::to_string(st);
-        else if (st == 0) { if (!sd || k.live.size() != live0 + 1) err = "decode_explicit returned OK without exactly one new seed block"; else { if (r.R == 0) img_x = lib::store(sd); polyseed_free(sd); } }
-        if (err.empty() && k.live.size() != live0) err = std::string("decode_explicit (") + model::status_name(st) + "): a seed block is left allocated";
+        else if (st == 0) { if (!sd || (ledger && k.live.size() != live0 + 1)) err = "decode_explicit returned OK without exactly one new seed block"; else { if (r.R == 0) img_x = lib::store(sd); polyseed_free(sd); } }
+        if (err.empty() && ledger && k.live.size() != live0) err = std::string("decode_explicit (") + model::status_name(st) + "): a seed block is left allocated";
         if (st == model::NUM_WORDS) any_numw = true; else all_numw = false;
         if (st != model::NUM_WORDS && st != model::LANG) { r.R++; recog = (int)li; }
         if (memcmp(buf, s.c_str(), s.size() + 1) != 0) err = "decode_explicit modified its input string";
@@ -53,11 +54,12 @@ inline std::string check(const std::string& input, unsigned coin, bool with_allo
     if (err.empty()) {
         r.st = (int)polyseed_decode(buf, (polyseed_coin)coin, &lo, &sd);
         if (r.st < 0 || r.st > 7 || r.st == model::FORMAT) err = std::string("decode returned the undocumented status ") + std::to_string(r.st);
-        else if (r.st == 0) { if (!sd || k.live.size() != live0 + 1) err = "decode returned OK without exactly one new seed block"; else { img_a = lib::store(sd); polyseed_free(sd); } }
-        if (err.empty() && k.live.size() != live0) err = std::string("decode (") + model::status_name(r.st) + "): a seed block is left allocated";
+        else if (r.st == 0) { if (!sd || (ledger && k.live.size() != live0 + 1)) err = "decode returned OK without exactly one new seed block"; else { img_a = lib::store(sd); polyseed_free(sd); } }
+        if (err.empty() && ledger && k.live.size() != live0) err = std::string("decode (") + model::status_name(r.st) + "): a seed block is left allocated";
         if (err.empty() && memcmp(buf, s.c_str(), s.size() + 1) != 0) err = "decode modified its input string";
     }
-    if (err.empty() && !k.ledger_errors.empty()) err = "allocator ledger: " + k.ledger_errors[0];
+    if (err.empty() && ledger && !k.ledger_errors.empty()) err = "allocator ledger: " + k.ledger_errors[0];
+    if (!ledger) { for (auto& b : k.live) free(b.first); k.live.clear(); k.ledger_errors.clear(); live0 = 0; }
     if (err.empty() && !c14_only) {
         int expect;
         if (any_numw) { expect = model::NUM_WORDS; if (!all_numw) err = "decode_explicit reports a wrong word count for some languages only"; }
@@ -88,7 +90,7 @@ inline std::string check(const std::string& input, unsigned coin, bool with_allo
             else if (failed_alloc ? st3 != model::MEMORY : st3 != r.E[recog]) err = std::string("decode_explicit under allocation failure returned ") + model::status_name(st3);
             else if (failed_alloc && r.E[recog] != model::OK && r.E[recog] != model::UNSUPPORTED) err = "decode_explicit attempted an allocation before its checksum verdict";
         }
-        if (err.empty() && k.live.size() != live0) err = "a seed block is left allocated after a failed allocation";
+        if (err.empty() && ledger && k.live.size() != live0) err = "a seed block is left allocated after a failed allocation";
     }
     free(buf);
     r.cls = std::string("R=") + (r.R == 0 ? "0" : r.R == 1 ? "1" : ">=2") + "/" + model::status_name(r.st);
